@@ -321,7 +321,7 @@ def rule_extents(repo, rep, rule):
                         fn = m.enclosing_function(node)
                         q = m.qualname_of(fn) if fn else "<module>"
                         n += 1
-                        ok = m.name == "tensor_allocation" and q == "allocate_tensors" and norm(node.value) == "total_sz"
+                        ok = m.name == "tensor_allocation" and q == "allocate_tensors" and (norm(node.value) == "total_sz" or norm(node) == f"{tt} += total_sz")
                         rep.check(ok, rule, f"ethosu/vela/{m.name}.py:{q}", norm(node), "published memory usage written outside allocate_tensors or from something else than the allocator total")
                     elif re.search(r"\.memory_used(_per_type)?$", tt) and not tt.startswith("self."):
                         fn = m.enclosing_function(node)
